@@ -8,8 +8,9 @@ import Aergo.Model.Crash
                                                         result, best, state root, the write units
 * `feedx <id> <parent> <no> <root> <txs|->`             the same for a block whose execution fails (the header's
                                                         state root is not the one execution reaches)
-* `lag <k> <s>`                                         restart on the stores left by the first k units of the
+* `lag <k> <s> [<j>]`                                   restart on the stores left by the first k units of the
                                                         journal when the state DB lost its units from position s on
+                                                        (but for the first j entries of unit s)
 * `dump`                                                canonical dump of the durable stores
 * `crash <k> [<j>]`                                     restart on the stores left by the first k units of the
                                                         recorded journal (plus the first j entries of unit k)
@@ -142,6 +143,14 @@ def step (s : Sess) (line : String) : Sess × String :=
     | _, _, _ => (s, "bad-op")
   | ["feed", i, p, n, r, t] => doFeed s false i p n r t
   | ["feedx", i, p, n, r, t] => doFeed s true i p n r t
+  | ["lag", k, l, j] =>
+    match k.toNat?, l.toNat?, j.toNat? with
+    | some k, some l, some j =>
+      if k > s.J.length ∨ l ≥ k then (s, "bad-op") else
+      let D := crashLagTorn s.J k l j s.base
+      let (s', out, us) := doRestart s D
+      ({ s' with crashStart := D, crashUnits := us }, out)
+    | _, _, _ => (s, "bad-op")
   | ["lag", k, l] =>
     match k.toNat?, l.toNat? with
     | some k, some l =>
